@@ -567,8 +567,12 @@ class SpectralDensity(DFunction, UnitsManaged):
         """
         import scipy.interpolate as interp
 
-        integr = self.data/self.axis.data
-        uvspl = interp.UnivariateSpline(self.axis.data, integr, s=0)
+        # J(w)/w at w = 0 is a limit; if the axis contains the point w = 0
+        # exactly, the integrand is interpolated over it from the other points
+        freq = self.axis.data
+        nonzero = (freq != 0.0)
+        integr = self.data[nonzero]/freq[nonzero]
+        uvspl = interp.UnivariateSpline(freq[nonzero], integr, s=0)
         integ = uvspl.integral(0.0, self.axis.max)/numpy.pi
 
         return integ
